@@ -65,7 +65,8 @@ fn main() {
         match id.as_str() {
         "C01" => props::cpu::run(&ctx, props::cpu::Which::Semantics),
         "C15" => props::cpu::run(&ctx, props::cpu::Which::Cycles),
-        "C05" => props::c05::run(&ctx),
+        "C04" => props::c04::run(&ctx),
+            "C05" => props::c05::run(&ctx),
             "C07" => props::c07::run(&ctx),
             "C08" => props::c08::run(&ctx),
             "C10" => props::c10::run(&ctx),
